@@ -15,6 +15,8 @@ length, element sub-patterns, one starred capture) and mapping patterns (isinsta
   x: T = v  ->  x = v   (annotated assignments outside class bodies; a bare `x: T` becomes `pass`; class-level ones declare record fields)
   a[k] = name = V   ->   name = V; a[k] = name     (chained assignment with exactly one plain name among the targets)
   functools.partial(F, a, k=v)(x)   ->   F(a, x, k=v);  `p = functools.partial(F, ...)` bound once in a function and only ever called -> the calls are F(...)
+  return (not P) or Q   ->   if not P: return True / return Q;   return C and Q  ->  if not C: return False / return Q
+      (only when the first operand is a `not`, a comparison or isinstance / hasattr / callable - always a bool)
   raise X from (A if C else B)   ->   if C: raise X from A / else: raise X from B
   try: <return / x => D[K]  /  except KeyError: <H>   ->   if K in D: <return / x =>  D[K] / else: <H>
       (one statement in the body, D an attribute or a local name - never `self` itself -, K free of calls other than id / str / repr /
@@ -313,6 +315,9 @@ class _PartialApply(ast.NodeTransformer):
     """functools.partial(F, ...)(...) applied on the spot, and locals that only name such a partial and are only ever called"""
     NAMES = ('functools.partial', 'partial')
 
+    def __init__(self, module_functions=None):
+        self.module_functions = module_functions or {}
+
     def _is_partial(self, c):
         return isinstance(c, ast.Call) and ast.unparse(c.func) in self.NAMES and c.args and not any(isinstance(a, ast.Starred) for a in c.args) and all(k.arg is not None for k in c.keywords) \
             and isinstance(c.args[0], (ast.Name, ast.Attribute))
@@ -360,6 +365,42 @@ class _PartialApply(ast.NodeTransformer):
         self.generic_visit(node)
         if self._is_partial(node.func):
             return self._merge(node.func, node)
+        if self._is_partial(node) and isinstance(node.args[0], ast.Name) and not node.keywords and node.args[0].id in self.module_functions:
+            # functools.partial(f, a, b) of a module-level function with plain positional parameters, used as a value (a callback):
+            # lambda <remaining parameters>: f(a, b, <remaining parameters>)
+            fd = self.module_functions[node.args[0].id]
+            a = fd.args
+            if not a.vararg and not a.kwarg and not a.kwonlyargs and not a.posonlyargs and not a.defaults and len(node.args) - 1 <= len(a.args):
+                rest = [x.arg for x in a.args[len(node.args) - 1:]]
+                used = {x.id for b in node.args[1:] for x in ast.walk(b) if isinstance(x, ast.Name)}
+                if not (set(rest) & used):
+                    lam = ast.Lambda(args=ast.arguments(posonlyargs=[], args=[ast.arg(arg=r) for r in rest], vararg=None, kwonlyargs=[], kw_defaults=[], kwarg=None, defaults=[]),
+                                     body=ast.Call(func=node.args[0], args=list(node.args[1:]) + [ast.Name(id=r, ctx=ast.Load()) for r in rest], keywords=[]))
+                    return ast.copy_location(lam, node)
+        return node
+
+
+class _BoolReturn(ast.NodeTransformer):
+    def _is_bool(self, e):
+        return (isinstance(e, ast.UnaryOp) and isinstance(e.op, ast.Not)) or isinstance(e, ast.Compare) or \
+            (isinstance(e, ast.Call) and isinstance(e.func, ast.Name) and e.func.id in ('isinstance', 'hasattr', 'callable', 'issubclass') and not e.keywords)
+
+    def visit_Return(self, node):
+        v = node.value
+        if not (isinstance(v, ast.BoolOp) and len(v.values) >= 2 and self._is_bool(v.values[0])):
+            return node
+        first, rest = v.values[0], v.values[1:]
+        tail = rest[0] if len(rest) == 1 else ast.copy_location(ast.BoolOp(op=v.op, values=rest), v)
+        ret_tail = self.visit_Return(ast.copy_location(ast.Return(value=tail), node))
+        ret_tail = ret_tail if isinstance(ret_tail, list) else [ret_tail]
+        if isinstance(v.op, ast.Or):
+            test, const = first, True
+        else:
+            test, const = ast.copy_location(ast.UnaryOp(op=ast.Not(), operand=first), first), False
+        guard = ast.copy_location(ast.If(test=test, body=[ast.copy_location(ast.Return(value=ast.copy_location(ast.Constant(value=const), node)), node)], orelse=[]), node)
+        return [guard] + ret_tail
+
+    def visit_Lambda(self, node):
         return node
 
 
@@ -439,7 +480,10 @@ def desugar(tree):
         tree = _Chained().visit(tree)
         ast.fix_missing_locations(tree)
     if any(isinstance(n, ast.Call) and ast.unparse(n.func) in _PartialApply.NAMES for n in ast.walk(tree)):
-        tree = _PartialApply().visit(tree)
+        tree = _PartialApply({n.name: n for n in tree.body if isinstance(n, ast.FunctionDef)}).visit(tree)
+        ast.fix_missing_locations(tree)
+    if any(isinstance(n, ast.Return) and isinstance(n.value, ast.BoolOp) for n in ast.walk(tree)):
+        tree = _BoolReturn().visit(tree)
         ast.fix_missing_locations(tree)
     if any(isinstance(n, ast.Raise) and isinstance(n.cause, ast.IfExp) for n in ast.walk(tree)):
         tree = _RaiseFrom().visit(tree)
